@@ -123,6 +123,11 @@ func (C02) Run(tp *tape.Tape) core.Result {
 	if step("gecho = () -> yield gqa") || step("gnv = (n) -> {\ni = 0\nwhile i < n {\nv = gecho()\nwrite(\"V\" + toa(v) + \",\" + toa(gqa) + \";\")\ni = i + 1\n}\n}") {
 		goto done
 	}
+	// loop variables of a function-level multi-iterator loop are ordinary locals: after the loop they
+	// hold what the last round bound, member by member, up to the member that ran dry
+	if step("zq = (n, m) -> {\na = 0 - 1\nb = 0 - 1\nc = 0 - 1\nfor a, b, c <- fromto(0, n), fromto(10, 10 + m), fromto(20, 29) {\nwrite(toa(a) + toa(b) + toa(c) + \";\")\n}\n[a, b, c]\n}") {
+		goto done
+	}
 	if step("gqa = 3") || step("gqb = 1") || step("gng = (n) -> {\ni = 0\nwhile i < gqa {\nwrite(\"Y\" + toa(i) + \";\")\nyield i + n\nwrite(\"R\" + toa(gqa) + \",\" + toa(gqb) + \";\")\ni = i + gqb\n}\n}") {
 		goto done
 	}
@@ -170,6 +175,12 @@ func (C02) Run(tp *tape.Tape) core.Result {
 				}
 				r.Inc("F8.loop_function_under_padding", 1)
 				if step(inner) {
+					goto done
+				}
+				continue
+			case k == 4: // unequal lengths: which variables the incomplete last round still bound
+				r.Inc("F5.loop_variables_read_after_unequal_zip", 1)
+				if step(fmt.Sprintf("zq(%d, %d)", tp.Draw(5), tp.Draw(5))) {
 					goto done
 				}
 				continue
